@@ -19,14 +19,14 @@ SPEC = dict(
                  'g++ 12 ASan/UBSan/LSan and valgrind memcheck report what they claim to report'],
     legs=[
         Leg('regress', 'h_hashtable', 'asan', opts={'mode': 'regress'}, quick=1, thorough=1, workers=1, leaks=True, min_cases=1),
-        Leg('ops', 'h_hashtable', 'asan', opts={'mode': 'ops'}, quick=40000, thorough=2000000, workers=16, leaks=True),
-        Leg('boundary', 'h_hashtable', 'asan', opts={'mode': 'boundary', 'big_every': '8'}, quick=1200, thorough=40000, workers=16, leaks=True, cpu_budget=120.0),
-        Leg('ordered', 'h_hashtable', 'asan', opts={'mode': 'ordered'}, quick=12000, thorough=600000, workers=16, leaks=True),
-        Leg('surface', 'h_hashtable', 'asan', opts={'mode': 'surface'}, quick=16000, thorough=800000, workers=16, leaks=True),
-        Leg('memcheck', 'h_hashtable', 'plain', opts={'mode': 'ops'}, quick=800, thorough=16000, workers=16, valgrind=True),
-        Leg('memcheck_surface', 'h_hashtable', 'plain', opts={'mode': 'surface'}, quick=320, thorough=6400, workers=8, valgrind=True),
-        Leg('memcheck_ordered', 'h_hashtable', 'plain', opts={'mode': 'ordered'}, quick=240, thorough=4800, workers=8, valgrind=True),
-        Leg('memcheck_boundary', 'h_hashtable', 'plain', opts={'mode': 'boundary', 'big_every': '0'}, quick=24, thorough=480, workers=8, valgrind=True),
+        Leg('ops', 'h_hashtable', 'asan', opts={'mode': 'ops'}, quick=24000, thorough=2000000, workers=16, leaks=True),
+        Leg('boundary', 'h_hashtable', 'asan', opts={'mode': 'boundary', 'big_every': '8'}, quick=800, thorough=40000, workers=16, leaks=True, cpu_budget=120.0),
+        Leg('ordered', 'h_hashtable', 'asan', opts={'mode': 'ordered'}, quick=6000, thorough=600000, workers=16, leaks=True),
+        Leg('surface', 'h_hashtable', 'asan', opts={'mode': 'surface'}, quick=10000, thorough=800000, workers=16, leaks=True),
+        Leg('memcheck', 'h_hashtable', 'plain', opts={'mode': 'ops'}, quick=480, thorough=9600, workers=16, valgrind=True),
+        Leg('memcheck_surface', 'h_hashtable', 'plain', opts={'mode': 'surface'}, quick=200, thorough=4000, workers=8, valgrind=True),
+        Leg('memcheck_ordered', 'h_hashtable', 'plain', opts={'mode': 'ordered'}, quick=120, thorough=2400, workers=8, valgrind=True),
+        Leg('memcheck_boundary', 'h_hashtable', 'plain', opts={'mode': 'boundary', 'big_every': '0'}, quick=12, thorough=240, workers=8, valgrind=True),
     ],
     min_stats={
         'regress': {'regress_exact_sizes': 9},
